@@ -261,29 +261,36 @@ class SneakyPool:
         if log_info:
             logger.info(f"Running {len(jobs)} jobs across {self.processes} processes")
 
+        # positions (in args_list) of the jobs handed to each process, in the order they were handed over
+        positions = [[] for _ in self.processes]
+
         for i, job in enumerate(jobs):
-            process = self.processes[i % len(self.processes)]
-            process.job_queue.put(job)
+            number = i % len(self.processes)
+            self.processes[number].job_queue.put(job)
+            positions[number].append(i)
 
         target = len(jobs)
         count = 0
 
-        exception = None
+        results = [None] * target
 
         while count < target:
-            for process in self.processes:
+            for number, process in enumerate(self.processes):
                 if not process.queue.empty():
                     item = process.queue.get()
+                    # a process answers its jobs in the order it received them, so the
+                    # next item on its queue belongs to the oldest position not yet answered
+                    results[positions[number].pop(0)] = item
                     count += 1
-                    if isinstance(item, Exception):
-                        exception = item
-                    else:
-                        yield item
 
         logger.debug("All jobs complete")
 
-        if exception is not None:
-            raise exception
+        # every queue has been drained: results are returned in the order of args_list, as
+        # a serial map would, and a failure is raised at the position where it occurred
+        for item in results:
+            if isinstance(item, Exception):
+                raise item
+            yield item
 
     def __del__(self):
         """
